@@ -693,7 +693,7 @@ func runC04(e *Engine, r *Report, tier string) {
 	r.Rule("R5", "escrowed amount == recorded in-flight amount", 2, "creation of 0x18 / 0x48 records")
 	r.Rule("R7", "composite conversions: intermediate representations cancel; net effect is the consumed / returned coin; one holder", 2, "functions chaining two value routines")
 	r.Rule("R8", "the error of every value-moving call is propagated (or the call runs on a cached context)", 10, "calls to routines with a debit/credit summary")
-	r.Rule("R6", "refund amount, fee-increase amount and token, cancel target (C05.R2/R3/R5)", 5, "C05 obligations")
+	r.Rule("R6", "refund amount, fee-increase amount and token, cancel target, no timeout refund of a call whose result is parked (C05.R2/R3/R5/R8)", 6, "C05 obligations")
 	r.Rule("R9", "an observed event's effects (mint / release) are applied once: apply-once dispatch and parked claims executed once (C01.R2/R5)", 4, "C01 obligations")
 	r.Assume("A1: the token pair stored for a base denom has owner MODULE or EXTERNAL (x/erc20 RegisterNativeCoin / RegisterNativeERC20 are the only writers)")
 	r.Assume("A2: FX has no alias denominations: the bridge denom of FX is FX (types/metadata.go GetFXMetaData carries no aliases; ManyToOne returns FX for FX)")
@@ -884,7 +884,7 @@ func runC04(e *Engine, r *Report, tier string) {
 	sub := NewReport("C05", "other")
 	runC05(e, sub, tier)
 	for _, o := range sub.Obls {
-		if (o.Rule == "R2" && strings.HasSuffix(o.Construct, " target")) || (o.Rule == "R3" && strings.HasSuffix(o.Construct, "refund-amount")) || (o.Rule == "R5" && (strings.HasSuffix(o.Construct, " amount") || strings.HasSuffix(o.Construct, " same-token"))) {
+		if o.Rule == "R8" || (o.Rule == "R2" && strings.HasSuffix(o.Construct, " target")) || (o.Rule == "R3" && strings.HasSuffix(o.Construct, "refund-amount")) || (o.Rule == "R5" && (strings.HasSuffix(o.Construct, " amount") || strings.HasSuffix(o.Construct, " same-token"))) {
 			r.add("R6", "C05."+o.Rule+" "+o.Construct, o.Status, o.Pos, o.Detail)
 		}
 	}
